@@ -425,6 +425,61 @@ func (c *ctx) binaryOps(o1 []int, S2 [][]int) {
 	if len(o1) > 0 {
 		run(nil, true)
 	}
+	// s2 is a proper piece of s1 (shares its array): the membership set is s2's content at the call
+	for i := 0; i < len(o1); i++ {
+		for j := i + 1; j <= len(o1); j++ {
+			if i == 0 && j == len(o1) {
+				continue
+			}
+			c.pieceOps(o1, i, j)
+		}
+	}
+}
+
+func (c *ctx) pieceOps(o1 []int, i, j int) {
+	piece := clone(o1[i:j])
+	wd, wi := diffDef(o1, piece), intersectDef(o1, piece)
+	type op struct {
+		f       int
+		inPlace bool
+		want    []int
+		call    func(s1, s2 []int) []int
+		expr    string
+	}
+	ops := []op{
+		{fDiffIP, true, wd, slicez.DiffInPlaceFirst[int], "slicez.DiffInPlaceFirst(s1, s1[%d:%d])"},
+		{fIntersectIP, true, wi, slicez.IntersectInPlaceFirst[int], "slicez.IntersectInPlaceFirst(s1, s1[%d:%d])"},
+		{fDiff, false, wd, func(s1, s2 []int) []int { return slicez.Diff(s1[:0], s1, s2) }, "slicez.Diff(s1[:0], s1, s1[%d:%d])"},
+		{fIntersect, false, wi, func(s1, s2 []int) []int { return slicez.Intersect(s1[:0], s1, s2) }, "slicez.Intersect(s1[:0], s1, s1[%d:%d])"},
+		{fDiff, false, wd, func(s1, s2 []int) []int { return slicez.Diff(nil, s1, s2) }, "slicez.Diff(nil, s1, s1[%d:%d])"},
+		{fIntersect, false, wi, func(s1, s2 []int) []int { return slicez.Intersect(nil, s1, s2) }, "slicez.Intersect(nil, s1, s1[%d:%d])"},
+	}
+	for _, o := range ops {
+		c.n[o.f]++
+		c.nt++
+		s1 := clone(o1)
+		var got []int
+		_, st, p := common.Catch(func() { got = o.call(s1, s1[i:j]) })
+		expr := fmt.Sprintf(o.expr, i, j)
+		cs := map[string]any{"s1": lit(o1), "call": expr}
+		gt := fmt.Sprintf("func TestReplay(t *testing.T) { s1 := %s; got := %s; t.Logf(\"returned %%v, want %s\", got) }", lit(o1), expr, lit(o.want))
+		switch {
+		case p:
+			cs["stack"] = st
+			c.r.Violation(fName[o.f]+"|panic|s2-is-a-piece-of-s1", fmt.Sprintf("%s panicked at %s", expr, common.PanicSite(st)), cs, gt)
+		case o.inPlace:
+			if !sameMultiset(got, o.want) {
+				c.r.Violation(fName[o.f]+"|wrong-multiset|s2-is-a-piece-of-s1", fmt.Sprintf("%s with s1 = %s returned %v, want a permutation of %v", expr, lit(o1), got, o.want), cs, gt)
+			}
+			if !sameMultiset(s1, o1) {
+				c.r.Violation(fName[o.f]+"|argument-not-a-permutation|s2-is-a-piece-of-s1", fmt.Sprintf("%s left s1 = %s as %v", expr, lit(o1), s1), cs, gt)
+			}
+		default:
+			if !eq(got, o.want) {
+				c.r.Violation(fName[o.f]+"|wrong-result|s2-is-a-piece-of-s1", fmt.Sprintf("%s with s1 = %s returned %v, want %v", expr, lit(o1), got, o.want), cs, gt)
+			}
+		}
+	}
 }
 
 func (c *ctx) unaryOps(o1 []int) {
@@ -704,9 +759,7 @@ func (c *ctx) indexOps(o1 []int) {
 			} else {
 				if ok || !eq(got, o1) {
 					c.r.Violation("Remove|wrong-result|"+class, fmt.Sprintf("Remove(%s, %d) = %v, %d, %v; want the unchanged slice and false", lit(o1), a, got, gv, ok), cs, gt)
-				} else if gv != 0 {
-					c.r.Violation("Remove|nonzero-value-on-failure|"+class, fmt.Sprintf("Remove(%s, %d) = _, %d, false; want the zero value", lit(o1), a, gv), cs, gt)
-				}
+				} // the value returned with ok == false is not specified
 				if !eq(s, o1) {
 					c.r.Violation("Remove|input-modified|"+class, fmt.Sprintf("a refused Remove(%s, %d) changed the slice to %v", lit(o1), a, s), cs, gt)
 				}
